@@ -226,6 +226,13 @@ func (o *Operator) HandleDeploy(ctx context.Context, req *workerpb.DeployOperato
 		return fmt.Errorf("creating filesystem: %w", err)
 	}
 
+	// The database instance of the previous deployment is dropped, but the
+	// checkpoints it took are what the job restores from - this operator, or
+	// another one when the ranges moved, or both after a rescale.
+	if o.db != nil {
+		o.db.Abandon()
+	}
+
 	// Start the DKV database.
 	o.db = dkv.Open(dkv.DBOptions{
 		FileSystem:    fs,
